@@ -11,6 +11,10 @@ CLI_BAG = {
     "hostile": '<<"api","api","reply","reply","hostile","hostile","hostile","hostile","inv","event","adv","disc","close">>',
     # CallProgressive: the call fed chunk by chunk through a callback
     "callp": '<<"callp","callp","api","reply","reply","reply","sched","adv","cancel","inv","release">>',
+    # a cancelled call whose router keeps sending results at intervals shorter than the response timeout
+    "cancelstream": '<<"api","api","reply","cancel","cancel","stream","stream","stream","advpart","advpart","advpart","adv">>',
+    # the router stops reading while invocation handlers run; results get stuck in the send; then it hangs up / the client closes
+    "deafrouter": '<<"setup","setup","setup","setup","deaf","deaf","deaf","event","adv","api","reply">>',
     "shutdown": '<<"api","api","api","reply","inv","cancel","sched","adv","disc","disc","close","close">>',
 }
 
